@@ -51,7 +51,7 @@ Proof. exact (calls_once_children_first visit_tokens T n ch). Qed.
 Print Assumptions C16_calls_once_children_first.
 
 (* Non-vacuity: a concrete tree and derivation under a symbolic transformer *)
-Definition ex_T := sym_T ["a"; "c"] ["A"].
+Definition ex_T := sym_T [("a", "a"); ("c", "c")] [("A", "A")].
 Definition ex_tree := Tr "a" [Tok "A" "1"; Tr "_x" [Tok "B" "2"; NoneV]; Tr "c" []].
 Definition ex_r := mkR "a" [mkSym false "_x" false; mkSym true "COMMA" true; mkSym false "c" false] None None
                        false true [false; false; true; false].
